@@ -111,6 +111,12 @@ func main() {
 	}
 	lib.RunProbes(res, "C09", f.Known)
 	probeO24()
+	if os.Getenv("C09_ONLY") == "exhaustive" { // development aid: time the exhaustive stream alone
+		n := runExhaustive(f.Scale(2, 3))
+		res.Extra = map[string]interface{}{"exhaustive_sequences": n}
+		res.Write(f.Out)
+		return
+	}
 	for _, s := range corpusSeqs() {
 		runSeq(s, "objops")
 	}
@@ -124,7 +130,7 @@ func main() {
 	nEx := runExhaustive(exLen)
 	res.Exhaustive = true
 	mods := progModules()
-	nProg := f.Scale(400, 20000)
+	nProg := f.Scale(300, 20000)
 	for i, ran := 0, 0; i < 40*nProg && ran < nProg; i++ {
 		r := rng.Fork()
 		p := lib.DefaultProfile()
@@ -138,7 +144,7 @@ func main() {
 		ran++
 		runProgram("programs", src, nil, nil)
 	}
-	nImm := f.Scale(1500, 60000)
+	nImm := f.Scale(1000, 60000)
 	for i := 0; i < nImm; i++ {
 		r := rng.Fork()
 		g := &pgen{r: r}
